@@ -287,14 +287,19 @@ func TestVerifRoachSelfEnd(t *testing.T) {
 		c := census()
 		// is data writing on?  Read from the reported state and from the channels themselves (open writers), not through
 		// the predicate the code itself uses to decide whether a run end must stop writing
-		ws := rs.ComputeWritingState()
-		open := 0
-		for _, dsp := range rs.processors {
-			if dsp.HasLJH22() || dsp.HasLJH3() || dsp.HasOFF() {
-				open++
+		// (only once the run is over: while it runs, the state is the core loop's)
+		writing := rs.WritingIsActive()
+		if rs.GetState() == Inactive {
+			ws := rs.ComputeWritingState()
+			open := 0
+			for _, dsp := range rs.processors {
+				if dsp.HasLJH22() || dsp.HasLJH3() || dsp.HasOFF() {
+					open++
+				}
 			}
+			writing = ws.Active || open > 0
 		}
-		vEmit(vmap{"ev": "UDPStep", "scen": 2, "step": name, "returned": ret, "err": msg, "state": lcStateName(rs.GetState()), "writing": ws.Active || open > 0,
+		vEmit(vmap{"ev": "UDPStep", "scen": 2, "step": name, "returned": ret, "err": msg, "state": lcStateName(rs.GetState()), "writing": writing,
 			"census": vmap{"core": c["core"] - c0["core"], "udp": c["udp"] - c0["udp"], "reader": c["reader"] - c0["reader"]}})
 	}
 	sender := func(stop chan struct{}) {
@@ -321,7 +326,11 @@ func TestVerifRoachSelfEnd(t *testing.T) {
 			}
 		}
 	}
-	for cycle := 0; cycle < 2; cycle++ {
+	cycles := 2
+	if os.Getenv("VERIF_SELFEND_CYCLES") == "1" {
+		cycles = 1 // (race-detector workload: one run, the paused one; no re-configuration right behind a run's end)
+	}
+	for cycle := 0; cycle < cycles; cycle++ {
 		if err := rs.Configure(&RoachSourceConfig{HostPort: []string{addr}, Rates: []float64{10000}}); err != nil {
 			vEmit(vmap{"ev": "UDPStep", "scen": 2, "step": "reconfigure", "returned": true, "err": err.Error(), "state": lcStateName(rs.GetState()), "writing": false, "census": vmap{"core": 0, "udp": 0, "reader": 0}})
 			return
@@ -342,8 +351,8 @@ func TestVerifRoachSelfEnd(t *testing.T) {
 			}
 		}, 10*time.Second)
 		time.Sleep(150 * time.Millisecond)
-		if cycle == 1 {
-			// the second run is PAUSED when it ends by itself: writing must be stopped all the same
+		if cycle == cycles-1 {
+			// the last run is PAUSED when it ends by itself: writing must be stopped all the same
 			step("write-pause", func() error {
 				res := make(chan error, 1)
 				select {
@@ -354,6 +363,20 @@ func TestVerifRoachSelfEnd(t *testing.T) {
 				}
 			}, 10*time.Second)
 		}
+		// a client that keeps asking whether writing is on while the run comes to its own end (what the RPC layer does
+		// before a pulse-length change); under the race detector this is the other party of the hand-over
+		pollDone := make(chan struct{})
+		go func() {
+			defer close(pollDone)
+			for i := 0; i < 200000 && rs.GetState() != Inactive; i++ {
+				rs.WritingIsActive()
+				time.Sleep(50 * time.Microsecond)
+			}
+			for i := 0; i < 2000; i++ {
+				rs.WritingIsActive()
+			}
+		}()
+		defer func() { <-pollDone }()
 		close(stop) // silence: the reader gives up after its 2 s keep-alive
 		for i := 0; i < 120 && rs.GetState() != Inactive; i++ {
 			time.Sleep(50 * time.Millisecond)
